@@ -4131,6 +4131,7 @@ where
                     self.tri.kernel.clone(),
                     topology,
                 );
+                candidate.tri.global_topology = self.tri.global_topology;
 
                 // During rebuild, force local repair after every insertion. We'll restore the caller's
                 // policies after we have a repaired candidate.
